@@ -31,6 +31,17 @@ const FLAG_SQPOLL: u32 = 1 << 1;
 const FLAG_SQE128: u32 = 1 << 10;
 const FLAG_CQE32: u32 = 1 << 11;
 
+/// 2^bits mod 2^32 for the boundary the run's counters are placed around
+fn boundary() -> u32 {
+    match std::env::var("VERIF_RING_BOUNDARY_BITS").ok().and_then(|x| x.parse::<u32>().ok()) {
+        Some(b) if b < 32 => 1u32 << b,
+        _ => 0,
+    }
+}
+fn boundary_bits() -> u32 {
+    std::env::var("VERIF_RING_BOUNDARY_BITS").ok().and_then(|x| x.parse::<u32>().ok()).filter(|b| *b < 32).unwrap_or(32)
+}
+
 fn clip(v: u64) -> i64 {
     if v == u64::MAX {
         -1
@@ -112,7 +123,9 @@ impl Sim {
         let layout = Layout::from_size_align(total, 4096).unwrap();
         let mem = unsafe { alloc_zeroed(layout) };
         assert!(!mem.is_null());
-        let base = 0u32.wrapping_sub(h);
+        // m = h stands for the real value 2^bits (default 32: the u32 wrap); VERIF_RING_BOUNDARY_BITS moves the window of
+        // start values to another boundary where a signed or narrower reading of the counters would change sign / wrap
+        let base = boundary().wrapping_sub(h);
         let at = |off: usize| unsafe { mem.add(off) };
         let sq_khead = at(sq_ring_off).cast::<AtomicU32>();
         let sq_ktail = at(sq_ring_off + 4).cast::<AtomicU32>();
@@ -232,6 +245,7 @@ impl Sim {
     fn describe(&self, ev: &mut Value) {
         let arr: Vec<i64> = (0..self.ns).map(|i| i64::from(unsafe { (*self.sq_array.add(i as usize)).load(Ordering::Relaxed) }).min(0x7fff_fff0)).collect();
         ev["arr"] = json!(arr);
+        ev["boundary_bits"] = json!(boundary_bits());
         ev["arr_from_real_setup"] = json!(real_index_array(self.ns, (if self.sshift == 1 { FLAG_SQE128 } else { 0 }) | (if self.cshift == 1 { FLAG_CQE32 } else { 0 })).is_some());
     }
     /// observed state after a step
